@@ -156,4 +156,30 @@ v = Schema([rule, r2, r3]).validate(doc)
 return isinstance(v.is_valid, bool)
 """
     out.append(mk_case("c07.cast.three_rules", [("u1", UN), ("t", "int")], body, pre=[f"BU({L}, u1, t)"], stubs=["sym_repr"]))
+    # the same schema / rule objects validate a document, the caller edits the document in place (entries removed,
+    # a branch replaced by a scalar, a list emptied), and they validate it again: still a result object
+    for cid, doc, edits in [
+        ("list_entry_removed", "{'jobs': [{'retries': '1'}, {'retries': 'x'}, {'retries': '2'}], 'c': u1}", ["doc['jobs'].pop()", "del doc['jobs'][0]['retries']"]),
+        ("branch_to_scalar", "{'jobs': [{'retries': '1'}], 'opts': {'limits': {'n': '3'}}, 'c': u1}", ["doc['opts']['limits'] = 0", "doc['jobs'] = u1", "doc['opts'] = None"]),
+        ("inner_list_truncated", "{'jobs': [{'retries': '1'}, {'retries': '7'}], 'xs': [['1'], ['2', u1]]}", ["doc['xs'][1].clear()", "doc['xs'].clear()", "doc['jobs'].clear()"]),
+    ]:
+        steps = "\n".join(f"{e}\nok = ok and check()" for e in edits)
+        body = f"""
+doc = {doc}
+rules = [Rule(('jobs', ListValue(), 'retries'), Value.greater_than(t), cast={{str: int}}),
+         Rule(('opts', 'limits', 'n'), Value.equal_to(t), cast={{str: int}}),
+         Rule(('xs', ListValue(), ListValue()), Value.less_than(t), cast={{str: int}}),
+         Rule(('jobs', 0, 'retries'), Value.equal_to(True), cast={{str: valida.casting.cast_string_to_bool}})]
+sch = Schema(rules)
+def check():
+    v = sch.validate(doc)
+    good = isinstance(v.is_valid, bool) and v.cast_data is not None
+    for r in rules:
+        good = good and isinstance(r.test(doc).is_valid, bool)
+    return good
+ok = check()
+{steps}
+return ok
+"""
+        out.append(mk_case(f"c07.cast.reuse.{cid}", [("u1", UN), ("t", "int")], body, pre=[f"BU({L}, u1, t)"], stubs=["sym_repr"]))
     return out
